@@ -23,6 +23,8 @@ type ProgGen struct {
 	dead     bool // a dead end was met: the program must be discarded
 	NoPrint  bool
 	// knobs
+	PrintPct  int  // chance of a print before each term (default 9)
+	Recursive bool // add scenarios over recursive types (naturals, servers)
 	MaxTyDepth int
 }
 
@@ -180,7 +182,11 @@ func (g *ProgGen) Term(ctx []Var, A *ast.Ty) *ast.Term {
 		return nil
 	}
 	g.budget--
-	if !g.NoPrint && g.Chance(9, "print") {
+	pp := g.PrintPct
+	if pp == 0 {
+		pp = 9
+	}
+	if !g.NoPrint && g.Chance(pp, "print") {
 		g.nlab++
 		g.feat("print")
 		return &ast.Term{Kind: ast.TPrint, Label: fmt.Sprintf("p%d", g.nlab), K: g.Term(ctx, A)}
@@ -500,6 +506,14 @@ func (g *ProgGen) Program() *ast.Program {
 		f := g.newFun(nil, ast.One(m))
 		g.Prcs = append(g.Prcs, &ast.Decl{Kind: ast.DExec, Name: f.Name})
 		g.feat("exec")
+	}
+	if g.Recursive {
+		if g.Chance(55, "natscenario") {
+			g.natScenario(0)
+		}
+		if g.Chance(45, "serverscenario") {
+			g.serverScenario(0)
+		}
 	}
 	if g.dead {
 		return nil
